@@ -212,6 +212,18 @@ impl<'tcx> Cx<'tcx> {
         o.push(("args", J::Arr(a)));
         o.push(("local", J::Bool(d.is_local())));
         o.push(("crate", J::s(tcx.crate_name(d.krate).to_string())));
+        if matches!(tcx.def_kind(d), DefKind::Fn | DefKind::AssocFn) {
+            // names of the callee's type parameters, in the order of `args` (parents first)
+            let g = tcx.generics_of(d);
+            let mut names: Vec<J> = vec![];
+            for i in 0..g.count() {
+                let p = g.param_at(i, tcx);
+                if let ty::GenericParamDefKind::Type { .. } = p.kind {
+                    names.push(J::s(p.name.to_string()));
+                }
+            }
+            o.push(("gparams", J::Arr(names)));
+        }
         if let DefKind::Ctor(of, _) = tcx.def_kind(d) {
             // constructor function of a tuple struct / variant
             let p = tcx.parent(d);
